@@ -40,6 +40,14 @@ CHECKS["C11"] = dict(level="exploration", design="4/C11", engine="module-generat
     technique="property-based testing: generated ct_add_test/ct_add_section/add_test argument lists and section nesting, reference model",
     text="Test commands with NAME at any position, EXPECTFAIL before/after NAME, arguments equal to the name or containing keyword substrings, names in all argument forms, sections nested to depth 3-4 in function or macro implementations; name, EXPECTFAIL flag, add_test signature (all arguments but the NAME pair, in order), warning class and entry order must equal the model.",
     note=MODEL_NOTE)
+CHECKS["C07"] = dict(level="exploration", design="4/C07", engine="module-generator-and-model",
+    technique="property-based testing: doc bodies generated from a reST grammar, docutils doctree (stub Sphinx directives) as structural judge",
+    text="Modules of every entry kind whose doc bodies are built from valid reST constructs (paragraphs, field lists, lists, literal blocks, nested directives; bodies ending in each of them) are documented and the page is parsed by docutils with stub directives: no error-level message, one title, one module node first, exactly the expected entry nodes as section-level siblings, every doc marker / generated admonition / field / member inside its own entry node only.",
+    note=GEN_NOTE + "docutils 0.23 is the independent structure judge; Sphinx directives are stubbed (content parsed as nested body); expected entry kinds come from the reference model.")
+CHECKS["C08"] = dict(level="exploration", design="4/C08", engine="module-generator-and-model",
+    technique="metamorphic property-based testing: same module under drawn include_undocumented_* vectors vs the default run, plus AST knowledge",
+    text="Each generated module (documented and undocumented commands of all ten kinds, documented/undocumented classes and members, nesting) is documented under the default flags and under 1-6 drawn flag vectors; every doc-carrying entry must persist with an identical own rendering, no entry may be named after an undocumented command whose flag is off, members of hidden classes must not appear. Known finding P10 (documented class + cpp_class flag off) is reported as KNOWN-FINDING and its clauses are skipped only inside that region.",
+    note=GEN_NOTE + "Entries are matched by unique names and doc markers; nothing is asserted about undocumented entries of kinds that stay on.")
 NOT_APPLICABLE = [
 ]
 
